@@ -285,8 +285,9 @@ def run(pid, tier, seed, replay):
         kinds = {n: rng.choice(PROVIDER_KINDS) for n in NAMES}
         coro = features.get("coro", ())
         concrete = [(concretise_text(t, names), e) for t, e in texts]
-        cond_names = {t for t, e in concrete if e and t.isidentifier()}
-        unless_names = {t for t, e in concrete if not e and t.isidentifier()}
+        # (F21: the very same entry - a name or an expression text - in cond and in unless of one transition)
+        cond_names = {t for t, e in concrete if e}
+        unless_names = {t for t, e in concrete if not e}
         features = dict(features, text=concrete[0][0][:80], kinds="/".join(kinds[n] for n in NAMES),
                         no_space_no_bang=any(" " not in t and "!" not in t and not t.isidentifier() for t, _ in concrete),
                         bang_after_word=any(__import__("re").search(r"[A-Za-z0-9_']!(?!=)", t) for t, _ in concrete),
